@@ -19,15 +19,18 @@ theorem shr10 (x : Int) : shr x 10 = x / 1024 := by simp [shr]
 theorem shr15 (x : Int) : shr x 15 = x / 32768 := by simp [shr]
 
 /-- the invariant: LIMB keeps `yu` in [544, 5120]; FILTE then keeps `yl` in [544·64, 5120·64]; the speed control
-    `ap` stays in [0, 512]; the coefficient / delay-line arrays keep their six entries -/
+    `ap` stays in [0, 512]; LIMC keeps the pole coefficient a[1] in [−12288, 12288] (±0.75) and LIMD keeps
+    |a[0]| ≤ 15360 − a[1] (the stability triangle of the two-pole predictor); the coefficient / delay-line arrays keep
+    their six entries -/
 structure Inv (st : St) : Prop where
   yu : 544 ≤ st.yu ∧ st.yu ≤ 5120
   yl : 34816 ≤ st.yl ∧ st.yl ≤ 327680
   ap : 0 ≤ st.ap ∧ st.ap ≤ 512
+  a  : -12288 ≤ st.a1 ∧ st.a1 ≤ 12288 ∧ -(15360 - st.a1) ≤ st.a0 ∧ st.a0 ≤ 15360 - st.a1     -- LIMC, LIMD
   b  : st.b.length = 6
   dq : st.dq.length = 6
 
-theorem init_inv_st : Inv St.init := ⟨by decide, by decide, by decide, rfl, rfl⟩
+theorem init_inv_st : Inv St.init := ⟨by decide, by decide, by decide, by decide, rfl, rfl⟩
 
 theorem updYu_range (y wi : Int) : 544 ≤ updYu y wi ∧ updYu y wi ≤ 5120 := by
   unfold updYu
@@ -58,15 +61,64 @@ theorem updAp_range (st : St) (h : 0 ≤ st.ap ∧ st.ap ≤ 512) (tr td : Bool)
         · rw [up]; omega
         · rw [dn]; omega
 
+/-- LIMC: the new a[1] stays within ±12288 -/
+theorem updA2_range (st : St) (h : -12288 ≤ st.a1 ∧ st.a1 ≤ 12288) (pk0 : Bool) (dqsez : Int) :
+    -12288 ≤ updA2 st pk0 dqsez ∧ updA2 st pk0 dqsez ≤ 12288 := by
+  have e0 : s16 (st.a1 - shr st.a1 7) = st.a1 - st.a1 / 128 := by
+    rw [shr7]; exact s16_id _ (by omega) (by omega)
+  unfold updA2
+  simp only
+  split
+  · generalize s16 (if s16 (if (pk0 != st.pk0) = true then st.a0 else -st.a0) < -8191 then s16 (st.a1 - shr st.a1 7) - 0x100
+        else if s16 (if (pk0 != st.pk0) = true then st.a0 else -st.a0) > 8191 then s16 (st.a1 - shr st.a1 7) + 0xFF
+        else s16 (st.a1 - shr st.a1 7) + shr (s16 (if (pk0 != st.pk0) = true then st.a0 else -st.a0)) 5) = a2p1
+    split
+    · split
+      · omega
+      · split
+        · omega
+        · rw [s16_id _ (by omega) (by omega)]; omega
+    · split
+      · omega
+      · split
+        · omega
+        · rw [s16_id _ (by omega) (by omega)]; omega
+  · rw [e0]; omega
+
+theorem clamp_range (x u : Int) (hu : 0 ≤ u ∧ u ≤ 32767) :
+    -u ≤ (if x < -u then s16 (-u) else if x > u then u else x) ∧ (if x < -u then s16 (-u) else if x > u then u else x) ≤ u := by
+  split
+  · rw [s16_id _ (by omega) (by omega)]; omega
+  · split <;> omega
+
+/-- LIMD: the new a[0] stays within ±(15360 − a2p) -/
+theorem updA1_range (st : St) (pk0 : Bool) (dqsez a2p : Int) (h : -12288 ≤ a2p ∧ a2p ≤ 12288) :
+    -(15360 - a2p) ≤ updA1 st pk0 dqsez a2p ∧ updA1 st pk0 dqsez a2p ≤ 15360 - a2p := by
+  unfold updA1
+  simp only
+  rw [s16_id (15360 - a2p) (by omega) (by omega)]
+  exact clamp_range _ _ (by omega)
+
 /-- **`update` preserves the invariant**, whatever its arguments are -/
 theorem update_inv (cs : Nat) (y wi fi dq sr dqsez : Int) (st : St) (h : Inv st) : Inv (update cs y wi fi dq sr dqsez st) := by
   have hyu := updYu_range y wi
-  refine ⟨hyu, ?_, ?_, ?_, ?_⟩
+  refine ⟨hyu, ?_, ?_, ?_, ?_, ?_⟩
   · show 34816 ≤ st.yl + (updYu y wi + shr (-st.yl) 6) ∧ st.yl + (updYu y wi + shr (-st.yl) 6) ≤ 327680
     rw [shr6]
     have := h.yl
     omega
   · exact updAp_range st h.ap _ _ _ _ _
+  · show -12288 ≤ (if trans st dq then 0 else updA2 st (decide (dqsez < 0)) dqsez) ∧
+        (if trans st dq then 0 else updA2 st (decide (dqsez < 0)) dqsez) ≤ 12288 ∧
+        -(15360 - (if trans st dq then 0 else updA2 st (decide (dqsez < 0)) dqsez)) ≤
+          (if trans st dq then 0 else updA1 st (decide (dqsez < 0)) dqsez (if trans st dq then 0 else updA2 st (decide (dqsez < 0)) dqsez)) ∧
+        (if trans st dq then 0 else updA1 st (decide (dqsez < 0)) dqsez (if trans st dq then 0 else updA2 st (decide (dqsez < 0)) dqsez)) ≤
+          15360 - (if trans st dq then 0 else updA2 st (decide (dqsez < 0)) dqsez)
+    split
+    · omega
+    · have h2 := updA2_range st ⟨h.a.1, h.a.2.1⟩ (decide (dqsez < 0)) dqsez
+      have h1 := updA1_range st (decide (dqsez < 0)) dqsez _ h2
+      omega
   · show (if trans st dq then [0, 0, 0, 0, 0, 0] else updBs cs dq st.b st.dq).length = 6
     split
     · rfl
